@@ -53,8 +53,17 @@ Record pattern := mkPat { pprefix : str; ptarget : str; prec : bool }.
 Definition pattern_eqb (a b : pattern) : bool :=
   str_eqb (pprefix a) (pprefix b) && str_eqb (ptarget a) (ptarget b) && Bool.eqb (prec a) (prec b).
 
-(* "Normalize the prefix by removing a trailing slash if present." *)
-Definition trim_slash (p : str) : str := if ends_with ch_slash p then drop_last p else p.
+(* "Normalize the prefix by removing all trailing slashes": strings.TrimRight(prefix, "/").
+   The tail is trimmed first; a slash is dropped exactly when everything after it was dropped. *)
+Fixpoint trim_slashes (p : str) : str :=
+  match p with
+  | [] => []
+  | c :: p' =>
+      match trim_slashes p' with
+      | [] => if Ascii.eqb c ch_slash then [] else [c]
+      | t => c :: t
+      end
+  end.
 
 (* ParseTargetPattern(currentPackage, pattern) *)
 Definition parse_pattern (cur s : str) : option pattern :=
@@ -70,13 +79,13 @@ Definition parse_pattern (cur s : str) : option pattern :=
       match find_sub ellipsis package_part with
       | Some i =>
           if i + 3 <? length package_part then None
-          else Some (mkPat (trim_slash (firstn i package_part)) tp true)
+          else Some (mkPat (trim_slashes (firstn i package_part)) tp true)
       | None =>
-          if has_colon then Some (mkPat (trim_slash package_part) tp false)
+          if has_colon then Some (mkPat (trim_slashes package_part) tp false)
           else
             let tp' := after_last ch_slash package_part in
             if null tp' then None
-            else Some (mkPat (trim_slash package_part) tp' false)
+            else Some (mkPat (trim_slashes package_part) tp' false)
       end
   else
     match split_first ch_colon s with
